@@ -140,6 +140,9 @@ type zzScopeCase struct {
 }
 
 var zzScopeCases = []zzScopeCase{
+	{"var-binds-every-listed-name", "b = W; f = func() { var a, b = V; b = V }; f(); b", func(v, w int64) int64 { return w }},
+	{"var-binds-every-listed-name-three", "c = W; f = func() { var a, b, c = V, V; c = V; return a }; f(); c", func(v, w int64) int64 { return w }},
+	{"var-list-with-fewer-values-in-block", "b = W; if true { var a, b = V; b = V }; b", func(v, w int64) int64 { return w }},
 	{"closure-sees-defining-scope", "x = V; f = func() { return x }; g = func() { var x = W; return f() }; g()", func(v, w int64) int64 { return v }},
 	{"closure-captures-by-reference", "x = W; f = func() { return x }; x = V; f()", func(v, w int64) int64 { return v }},
 	{"closure-writes-captured", "x = W; f = func() { x = V }; f(); x", func(v, w int64) int64 { return v }},
